@@ -280,7 +280,10 @@ def handler(job):
         raise Viol('memory=%d (need=%d) but the run is not clean: %s' % (S, need, o), 'non-monotone-need')
       res['outcomes'].append(o)
   except Viol as e:
-    res['violations'].append(dict(bucket=e.bucket, msg=str(e)))
+    if e.bucket == 'reference-error':
+      res['discard'] = str(e)[:200]       # the scene blows up on its own with ample memory: not a memory question
+    else:
+      res['violations'].append(dict(bucket=e.bucket, msg=str(e)))
   return res
 
 
